@@ -109,7 +109,7 @@ func (s *c13Search) dfs(done uint32) bool {
 			if done&(1<<uint(i)) != 0 || !c13Pure(c.op.kind) || !s.minimal(done, i) {
 				continue
 			}
-			if c.wild || c13Apply(ref.e, c.op) == c.res {
+			if c13Apply(ref.e, c.op) == c.res {
 				done |= 1 << uint(i)
 				s.prefix = append(s.prefix, i)
 				changed = true
